@@ -916,7 +916,14 @@ func (w *Walker) block(st *wstate, b *ssa.BasicBlock, pred *ssa.BasicBlock) {
 		for lb := range body {
 			for _, in := range lb.Instrs {
 				if s, ok := in.(*ssa.Store); ok {
-					delete(st.store, w.canon(st, fr, s.Addr))
+					addr := w.canon(st, fr, s.Addr)
+					if a, isAlloc := s.Addr.(*ssa.Alloc); isAlloc && a.Comment != "" {
+						// a variable assigned in the loop: unknown at the header, named like a loop phi
+						// (go/ssa keeps a variable in memory instead of a phi e.g. when a defer spills named results)
+						st.store[addr] = fmt.Sprintf("loop:%s@%d", a.Comment, b.Index)
+					} else {
+						delete(st.store, addr)
+					}
 				}
 			}
 		}
